@@ -1,5 +1,6 @@
 import FFVerif.Props.C12
 import FFVerif.Pins.pinIdentityElementIndex
+import FFVerif.Pins.pinGgmExpand
 #print axioms FFVerif.C12.cm_energy_offset
 #print axioms FFVerif.C12.ff_energy_offset
 #print axioms FFVerif.C12.cm_basis_change
@@ -9,3 +10,4 @@ import FFVerif.Pins.pinIdentityElementIndex
 #print axioms FFVerif.C12.cm_frame_covariance
 #print axioms FFVerif.C12.ff_frame_independent
 #print axioms FFVerif.Pins.pinIdentityElementIndex
+#print axioms FFVerif.Pins.pinGgmExpand
